@@ -224,6 +224,8 @@ def gen_case(rng, tier, index):
     wl["max_volume"] = rng.choice([950, 200, 100, 50, 1000])
     wt = gen.gen_worktable(rng, vclass=vclass if vclass != "dirty" else "cent", limits=rng.choice(["loose", "loose", "wide"]),
                            need_trough=rng.random() < 0.6, small=True)
+    if rng.random() < 0.12:
+        wl["auto_split"] = False
     n_ops = rng.choice([5, 10, 20, 40, 150 if tier == "thorough" else 60])
     return {"worklist": wl, "worktable": wt, "n_ops": n_ops, "opseed": rng.getrandbits(48), "profile": "history", "vclass": vclass}
 
